@@ -16,6 +16,9 @@ package main
 //  peer_headers n             [0, requested]           n more headers; blocks requested by getdata
 //  peer_blocks k              [0, announced]           next k blocks; heights announced to handlers
 //  peer_sync                  [0, ready]               empty headers message
+//  peer_inv t                 [0, asked]               tx t announced by inventory; getdata requests for t so far
+//  tx_age s                   [0]                      mempool request times and tracker times aged by s seconds
+//  peer_getdata t             [0, pong, asked]         peer activity (pings), then getdata requests for t so far
 //  peer_txblock t rel         [0, requested, announced, txDelivered]   next block with tx t next to its coinbase
 //  peer_burst_rel n           [0, full]                n distinct relevant txs, not waiting for their delivery
 //  wait_delivered k           [0, distinct]            distinct txs delivered as new txs (waits for k)
@@ -205,6 +208,8 @@ type sdPeer struct {
 	verLast   int64
 	pongs     int64
 	requested map[int64]bool
+	tu        *TxUniverse
+	txreq     map[int64]int64 // getdata requests received per tx id (all connections of the case)
 	sent      int64 // highest header id sent on this connection (-1: none)
 	silent    bool
 }
@@ -235,6 +240,11 @@ func (p *sdPeer) pump(conn net.Conn, gen int) {
 				}
 			case *wire.MsgGetData:
 				for _, iv := range m.InvList {
+					if iv.Type == wire.InvTypeTx && p.tu != nil {
+						p.umu.Lock()
+						p.txreq[p.tu.ID(&iv.Hash)]++
+						p.umu.Unlock()
+					}
 					if iv.Type == wire.InvTypeBlock {
 						p.umu.Lock()
 						p.requested[p.bu.ID(&iv.Hash)] = true
@@ -316,7 +326,7 @@ func runShutdown(c *Case) ([]Obs, any) {
 	cfg := sdConfig(l.Addr().String(), int(cfgInt(c, "delay", 2000)), int(cfgInt(c, "retry", 200)))
 	cfg.StartHash = bu.HashOf(0)
 	peer := &sdPeer{net: wire.BitcoinNet(cfg.Net), bu: bu, addr: l.Addr().String(), ln: l.(*net.TCPListener),
-		locTip: -100, requested: map[int64]bool{}, sent: -1}
+		locTip: -100, requested: map[int64]bool{}, sent: -1, tu: tu, txreq: map[int64]int64{}}
 
 	umu := &sync.Mutex{}
 	peer.umu = umu
@@ -626,6 +636,37 @@ func runShutdown(c *Case) ([]Obs, any) {
 				waitFor(func() bool { return distinct() >= k }, 6*time.Second)
 				time.Sleep(100 * time.Millisecond)
 				return Obs{OK, distinct()}
+			case "peer_inv":
+				// the trusted peer announces tx t by inventory (it does not send the tx)
+				t := op.Int(0)
+				tx := mkTx(t, []int64{90000 + t*10}, true)
+				h := *tx.TxHash()
+				inv := wire.NewMsgInv()
+				inv.AddInvVect(wire.NewInvVect(wire.InvTypeTx, &h))
+				peer.send(inv)
+				barrier()
+				barrier()
+				umu.Lock()
+				n := peer.txreq[t]
+				umu.Unlock()
+				return Obs{OK, n}
+			case "tx_age":
+				// the request window passes: request times of the mempool and announcement times of the tracker are aged
+				d := time.Duration(op.Int(0)) * time.Second
+				node.VerifMemPool().VerifAge(d)
+				node.VerifTxTracker().VerifAge(d)
+				return Obs{OK}
+			case "peer_getdata":
+				// activity of the peer (two pings: the check that follows the first one queues its requests behind
+				// the first pong), then how often tx t was asked for so far
+				t := op.Int(0)
+				ok1 := barrier()
+				ok2 := barrier()
+				time.Sleep(30 * time.Millisecond)
+				umu.Lock()
+				n := peer.txreq[t]
+				umu.Unlock()
+				return Obs{OK, b2i(ok1 && ok2), n}
 			case "peer_sync":
 				peer.send(wire.NewMsgHeaders())
 				ready := waitFor(func() bool { return node.IsReady(ctx) }, react)
